@@ -91,7 +91,8 @@ def rules_with_canon(pid, files, extra=None):
 
 def rules_C07(ctx):
     return total_for("C07", ctx) + [structural.maskkind(ctx), flag.lowlimb(ctx), variant.run(ctx, "all", ["conv"]),
-                                    guard.try_from_u64_model(ctx)]
+                                    guard.try_from_u64_model(ctx),
+                                    flag.feasible_failure(ctx, "all", {"crate::Uint::<BITS, LIMBS>::overflowing_from_limbs_slice"})]
 
 
 def flag_for(files, ops=None):
@@ -105,7 +106,9 @@ def rules_C05(ctx):
 
 def rules_C09(ctx):
     return total_for("C09", ctx) + [flag.flag(ctx, "all", {"src/base_convert.rs"}), table.alphabets(ctx),
-                                    table.prefixes(ctx)]
+                                    table.prefixes(ctx), canon_for(ctx, {"src/base_convert.rs", "src/string.rs"}),
+                                    flag.feasible_failure(ctx, "all", {"crate::base_convert::<impl crate::Uint<BITS, LIMBS>>::from_base_be",
+                                                                       "crate::base_convert::<impl crate::Uint<BITS, LIMBS>>::from_base_le"})]
 
 
 def rules_C13(ctx):
@@ -142,7 +145,9 @@ def rules_C17(ctx):
 
 
 def rules_C08(ctx):
-    return total_for("C08", ctx) + [canon_for(ctx, {"src/bytes.rs"}), guard.buffers(ctx)]
+    return total_for("C08", ctx) + [canon_for(ctx, {"src/bytes.rs"}), guard.buffers(ctx),
+                                    flag.feasible_failure(ctx, "all", {"crate::bytes::<impl crate::Uint<BITS, LIMBS>>::try_from_be_slice",
+                                                                       "crate::bytes::<impl crate::Uint<BITS, LIMBS>>::try_from_le_slice"})]
 
 
 def rules_C10(ctx):
